@@ -92,8 +92,13 @@ def rstr(rng, lo, hi, special=0.35, forbid=(122,)):
 def random_exec(rng, max_groups, max_tests):
     ex = [["start", "", "", "", 0, rng.choice(["0", "0", "1"])]]
     run_ignored = ex[0][5] == "1"
+    last = None
     for _ in range(rng.randint(0, max_groups)):
-        ex.append(["group", hx(rstr(rng, 1, 10)), "", "", 0, ""])
+        g = rstr(rng, 1, 10)
+        if g == last:               # the registry takes a change of name as the group boundary
+            g = g + [103]
+        last = g
+        ex.append(["group", hx(g), "", "", 0, ""])
         files = [rstr(rng, 1, 14) for _ in range(2)]
         for _ in range(rng.randint(1, max_tests)):
             r = rng.random()
